@@ -33,12 +33,13 @@ REQUIRED_THEOREMS = [
     'is_prime_no_false_negative', 'is_prime_trial_division_exact', 'is_prime_partial',
     'next_prime_spec', 'prev_prime_spec', 'invert_spec', 'gcdext_bezout', 'gcdext_normalised', 'jacobi_eq', 'legendre_eq',
     'kronecker_eq', 'isqrt_spec', 'iroot_spec', 'is_square_spec', 'factor_prime_power_sound',
+    'factor_prime_power_complete', 'factor_prime_power_iff', 'ratrec_terminates',
     'ratrec_sound', 'powMod_eq',
 ]
-RULE = ('exhaustive (thorough tier; quick tier bounds in brackets): is_prime for all x in [-50, 10^5] [3*10^4], '
-        'next_prime/prev_prime for all x <= 10^5 [8000 and every 11th up to 3*10^4], gcdext/invert/jacobi/kronecker for '
-        'all pairs |a|,|b| <= 300 [60] incl. error cases, legendre on -60..60 x -5..59, isqrt/is_square/iroot for all '
-        'x <= 2*10^5 [8000] plus every 3rd [101st] x and all perfect powers +-1 up to 10^6 (iroot with n in -1..21), '
+RULE = ('exhaustive (thorough tier; quick tier bounds in brackets): is_prime for all x in [-50, 10^5], '
+        'next_prime/prev_prime for all x <= 10^5 [15000 and every 11th up to 10^5], gcdext/invert/jacobi/kronecker for '
+        'all pairs |a|,|b| <= 300 [100] incl. error cases, legendre on -60..60 x -5..59, isqrt/is_square/iroot for all '
+        'x <= 2*10^5 [20000] plus every 3rd [101st] x and all perfect powers +-1 up to 10^6 (iroot with n in -1..21), '
         'factor_prime_power on all proper prime powers <= 10^6, all primes < 3000 [2000], a sample of larger primes and of '
         'non-powers, products of two primes around 2^10, ratrec for all y <= 40 [15] with all x and N, D in '
         '{None, -1..5}, powmod on a small cube; random: 64..2048-bit arguments built to hit each branch (primes, '
@@ -49,8 +50,9 @@ EXPLANATION = ('All clauses have theorems except: "composite => is_prime returns
                'the trial-division stage and soundness of a False answer (is_prime_partial); the 4^-n error bound '
                'is quoted, not proved. next_prime/prev_prime/factor_prime_power are proved relative to a correct '
                'primality oracle. gcdext: Bezout/gcd and the GMP normalisation of (s, t) are proved for all integers. '
-               'factor_prime_power / ratrec: soundness proved (a returned value is correct), completeness (a valid input '
-               'is never rejected) is validated by the oracle only.')
+               'factor_prime_power: soundness and completeness proved (relative to a correct oracle). ratrec: soundness '
+               'and termination proved; completeness (Wang: an existing reconstruction is found) is validated by the '
+               'oracle only.')
 ASSUMPTIONS = [
     'gmpy2 is not installed / MPYC_NOGMPY=1: the pure-Python stubs are the code under test',
     'CPython builtins pow(a,e,m), math.isqrt, math.gcd, int.bit_length, divmod behave as their models '
@@ -198,14 +200,14 @@ def rand_prime(rng, bits, pool=2):
 
 def gen_exhaustive(ctx):
     cases = []
-    X = ctx.scale(30_000, 100_000)
-    XN = ctx.scale(8_000, 100_000)
+    X = 100_000
+    XN = ctx.scale(15_000, 100_000)
     for x in range(-50, X + 1):
         cases.append(('is_prime', (x,), None))
         if x <= XN or x % 11 == 0:
             cases.append(('next_prime', (x,), None))
             cases.append(('prev_prime', (x,), None))
-    R = ctx.scale(60, 300)
+    R = ctx.scale(100, 300)
     fact = {y: orc.factorint(y) for y in range(1, R + 1)}
     oddpart = {}
     for y in range(1, R + 1):
@@ -224,7 +226,7 @@ def gen_exhaustive(ctx):
             cases.append(('legendre', (a, b), None))
     # roots: all x <= XR, every step-th x up to 10^6, all perfect powers +-1 up to 10^6
     squares = set(i * i for i in range(0, 1100))
-    XR = ctx.scale(8_000, 200_000)
+    XR = ctx.scale(20_000, 200_000)
     step = ctx.scale(101, 3)
     xs = set(range(-40, XR + 1)) | set(range(XR, 1_000_001, step))
     powers = set()
